@@ -17,6 +17,7 @@ Tie, on every run and against the object code of /repo's current tree:
           (mismatch), and applies the executable property checker ok_call to the implementation's
           text (violations).
 """
+import itertools
 import json
 import os
 import re
@@ -87,12 +88,23 @@ def finish_slots(c):
         loc = spec_loc(sp)
         if loc is None or "/t" in sp:
             continue
-        if re.search(r"/S", sp) and word_token(c, loc) != "@BAD":
+        if re.search(r"/S", sp) and word_token(c, loc) not in ("@BAD", "@BRK", "@EDGE"):
             a = ["obj", a]
         slots["%s:%d" % loc] = a[:2] if a[0] == "int" else a
     c["slots"] = slots
     c.setdefault("xmm0", 0)
     return c
+
+
+def str_bytes(c, a):
+    """the bytes of the C string a string-valued actual denotes: ["str", i] | ["at", "@S<i>+<off>" | "@EDGE-<k>"]"""
+    if a[0] == "str":
+        return bytes.fromhex(c["strings"].get(a[1], c["strings"].get(str(a[1]))))
+    t = a[1]
+    if t.startswith("@EDGE"):
+        return b"E" * (int(t[6:]) - 1)
+    i, off = t[2:].split("+")
+    return bytes.fromhex(c["strings"].get(int(i), c["strings"].get(i)))[int(off):]
 
 
 def groups_of(c):
@@ -129,6 +141,10 @@ def derive_actual(c, m):
     if f == "FStruct":
         return ["struct"]
     if f == "FFloat":
+        if m["idx"] != 0 and TYPES[m["type"]] == "TStack":
+            k = m["u"]
+            lo, hi = resolve(c, word_token(c, ("stack", k))), resolve(c, word_token(c, ("stack", k + 1)))
+            return ["flt", (lo | (hi << 64)) & ((1 << (8 * m["size"])) - 1)]
         return ["flt", c.get("xmm0", 0)]
     loc = loc_of_mspec(m)
     if loc is None:
@@ -200,7 +216,7 @@ class Gen:
     def call(self, profile=None):
         r = self.rng
         profile = profile or r.choice(["mix", "mix", "mix", "ints", "strings", "strlen", "total", "total", "struct",
-                                       "addr", "ptr", "ret", "stdstr", "many", "multi", "multi", "multi"])
+                                       "addr", "ptr", "ret", "stdstr", "many", "multi", "multi", "multi", "long"])
         c = self.blank(profile)
         if profile == "ints":
             for _ in range(r.randrange(1, 9)):
@@ -234,20 +250,31 @@ class Gen:
         elif profile == "stdstr":
             for _ in range(r.randrange(1, 4)):
                 r.choice([self.add_stdstr, self.add_stdstr, self.add_int, self.add_str])()
+        elif profile == "long":
+            # a display around the 1024 characters of replay's buffer: strings of 40..98 characters, some with escapes
+            for _ in range(r.randrange(9, 14)):
+                if r.random() < 0.75:
+                    self.add_str(n=r.choice([40, 60, 80, 90, 97, 98, 120]))
+                else:
+                    self.add_int()
         elif profile == "many":
             for _ in range(r.randrange(8, 20)):
                 r.choice([self.add_int, self.add_int, self.add_char, self.add_str])()
         else:
             for _ in range(r.randrange(1, 9)):
-                r.choice([self.add_int, self.add_int, self.add_str, self.add_str, self.add_char, self.add_ptr,
-                          self.add_struct])()
+                r.choice([self.add_int, self.add_int, self.add_int, self.add_str, self.add_str, self.add_str, self.add_char,
+                          self.add_char, self.add_ptr, self.add_ptr, self.add_struct, self.add_struct, self.add_ldbl])()
         if profile == "ret" or profile == "multi" or r.random() < 0.5:
             self.add_ret()
         if not c["specs"] and not c["rspecs"]:
             self.add_int()
         # keep the display inside replay's 1 KiB text buffers (their overflow is a separate witness)
-        while self.display_len(c) > 900 and c["specs"]:
+        # mostly inside replay's 1 KiB text buffer; one call in ten may exceed it (the text then stops early)
+        cap = 2600 if (profile == "long" or r.random() < 0.05) else 880
+        while self.display_len(c) > cap and c["specs"]:
             self.drop_last()
+        if self.display_len(c) > 900:
+            c["tags"].append("display>900")
         x = r.choice([0, 0x3ff8000000000000, 0x400921fb54442d18, 0x8000000000000000, 1, r.getrandbits(64), r.getrandbits(64)])
         if (x >> 52) & 0x7ff == 0x7ff:
             x &= ~(1 << 62)              # no NaN / infinity: the logging scripts print numbers, not bits
@@ -298,7 +325,7 @@ class Gen:
                     name, sfx = "arg%d" % r.randrange(1, 19), "%%stack+%d" % loc[1]
                 else:
                     how = "again"
-            if fam in ("str", "null", "bad"):
+            if fam in ("str", "at", "null", "bad"):
                 f = r.choice(["s", "s", "p", "x"])
             elif fam == "obj":
                 f = r.choice(["S", "p", "x"])
@@ -312,7 +339,7 @@ class Gen:
         n = r.randrange(1, 4)
         for _ in range(n):
             cls = r.choice(["index", "float", "float", "reg", "stack"])
-            if rc is not None and rc[0] in ("str", "null", "bad"):
+            if rc is not None and rc[0] in ("str", "at", "null", "bad"):
                 f = r.choice(["s", "p", "x"])
             elif rc is not None and rc[0] == "struct":
                 f = "x"
@@ -444,12 +471,31 @@ class Gen:
             self._c["actual"].append(["null"])
             self._c["tags"].append("str=NULL")
         elif k < 0.16:
-            self.put(where, "@BAD")
-            self._c["actual"].append(["bad"])
+            # inside a PROT_NONE page / the gap behind the heap (repaired: 9eb50dd) / exactly the end of a readable mapping
+            tok = r.choice(["@BAD", "@BRK", "@EDGE"])
+            self.put(where, tok)
+            self._c["actual"].append(["bad", tok])
             self._c["tags"].append("str=unreadable")
         else:
+            q = r.random()
+            if q < 0.08 and n is None:
+                # a pointer into the readable page in front of the PROT_NONE page: its last byte (the NUL), a few
+                # characters in front of it, its first byte
+                k = r.choice([1, 1, 2, 4, 50, 99, 100, 4096])
+                self.put(where, "@EDGE-%d" % k)
+                self._c["actual"].append(["at", "@EDGE-%d" % k])
+                self._c["tags"].append("str=edge-%s" % (k if k in (1, 2, 4096) else "k"))
+                self._c["specs"].append(name + "/s" + sfx)
+                return
             s = self.string(n)
             i = self.new_string(s)
+            if q < 0.16 and n is None and len(s) > 0:
+                off = r.choice([1, len(s), len(s) - 1, r.randrange(len(s) + 1)])     # inside the string, up to its NUL
+                self.put(where, "@S%d+%d" % (i, off))
+                self._c["actual"].append(["at", "@S%d+%d" % (i, off)])
+                self._c["tags"].append("str=inner-pointer")
+                self._c["specs"].append(name + "/s" + sfx)
+                return
             self.put(where, "@S%d" % i)
             self._c["actual"].append(["str", i])
             self._c["tags"].append("strlen~%s" % (len(s) if len(s) < 4 or 94 <= len(s) <= 102 else "other"))
@@ -467,7 +513,7 @@ class Gen:
         k = r.random()
         if k < 0.1:
             self.put(where, "@BAD")                # unreadable object: shown as its address
-            c["actual"].append(["bad"])
+            c["actual"].append(["bad", "@BAD"])
         else:
             inner = r.choice(["str", "str", "str", "null", "bad"])
             if inner == "str":
@@ -477,13 +523,37 @@ class Gen:
             elif inner == "null":
                 s, tok, av = b"", 0, ["null"]
             else:
-                s, tok, av = b"", "@BAD", ["bad"]
+                s, tok, av = b"", "@BAD", ["bad", "@BAD"]
             j = len(c["strings"]) + len(c["objs"])
             c["objs"][j] = [tok, len(s), self.word()]
             self.put(where, "@S%d" % j)
             c["actual"].append(av)
         c["specs"].append(name + "/S" + sfx)
         c["tags"].append("fmt=S")
+
+    def add_ldbl(self):
+        """a long double argument (x87: passed in memory): fpargN/80%stack+K takes 10 of the 16 bytes at stack word K"""
+        r = self.rng
+        c, used, locs = self._c, self._used, self._locs
+        for _ in range(20):
+            k = r.randrange(1, 22)
+            if ("S", k) in used or ("stack", k) in locs or ("stack", k + 1) in locs:
+                continue
+            n = r.randrange(1, 9)
+            if ("F", n) in used:
+                continue
+            used.add(("S", k))
+            used.add(("F", n))
+            locs.add(("stack", k))
+            locs.add(("stack", k + 1))
+            lo, hi = r.choice([(0xa000000000000000, 0x3fff), (0x8000000000000000, 0xc000), (0, 0),
+                               (r.getrandbits(64) | (1 << 63), r.randrange(1, 0x7ffe))])
+            self.put(("stack", k + 1), hi | (r.getrandbits(48) << 16))
+            self.put(("stack", k), lo)
+            c["specs"].append("fparg%d/80%%stack+%d" % (n, k))
+            c["actual"].append(["flt", lo | (hi << 64)])
+            c["tags"].append("fmt=f80")
+            return
 
     def add_ptr(self):
         r = self.rng
@@ -567,8 +637,8 @@ class Gen:
                 c["ret"][0] = 0
                 c["ractual"].append(["null"])
             elif q < 0.2:
-                c["ret"][0] = "@BAD"
-                c["ractual"].append(["bad"])
+                c["ret"][0] = r.choice(["@BAD", "@BRK", "@EDGE"])
+                c["ractual"].append(["bad", c["ret"][0]])
             else:
                 s = self.string()
                 i = self.new_string(s)
@@ -612,8 +682,8 @@ class Gen:
         c["tags"] += ["total=%d" % (need + ALIGN(fill, 4)), "near-limit"]
 
     def need(self, spec, a, c):
-        if a[0] == "str":
-            return ALIGN(min(len(c["strings"][a[1]]) // 2, ARG_STR_MAX) + 2, 4)
+        if a[0] in ("str", "at"):
+            return ALIGN(min(len(str_bytes(c, a)), ARG_STR_MAX) + 2, 4)
         if a[0] == "null":
             return 8
         if a[0] == "bad":
@@ -629,8 +699,8 @@ class Gen:
     def display_len(self, c):
         n = 2
         for s, a in zip(c["specs"], c["actual"]):
-            if a[0] == "str":
-                n += 2 * min(len(c["strings"][a[1]]) // 2, ARG_STR_MAX) + 6
+            if a[0] in ("str", "at"):
+                n += 2 * min(len(str_bytes(c, a)), ARG_STR_MAX) + 6
             else:
                 n += 24
         return n
@@ -682,6 +752,15 @@ def witness_neg32():
 REGRESSIONS = [witness_len98, witness_c64, witness_overflow, witness_overflow_many]
 # still present, listed in known-findings.txt: the generators stay out of the class, this is the witness
 WITNESSES = [("auto-neg32", witness_neg32)]
+
+
+def sanitizer_report(stderr):
+    """ASan error, or a UBSan report located in the code that reads / formats argument payloads"""
+    if b"ERROR: AddressSanitizer" in stderr:
+        return True
+    return any(b"runtime error" in l and any(f in l for f in (b"cmds/replay.c", b"cmds/dump.c", b"cmds/script.c",
+                                                              b"utils/script", b"utils/fstack.c", b"utils/argspec.c"))
+               for l in stderr.split(b"\n"))
 
 
 # ================================================================== logging scripts (what a script receives, with its type)
@@ -741,7 +820,9 @@ def script_token(tok, spec):
         isflt = spec is not None and FMTS[spec["fmt"]] == "FFloat"
         if not isflt and k == "D" and d == int(d):
             return ("int", int(d))                      # a Lua number that holds an integer
-        size = 4 if isflt and spec["size"] == 4 else 8       # double and long double arrive as a double
+        if isflt and spec["size"] == 10:
+            return ("flt", 10, 0)                           # (double)long double: the bits are not compared
+        size = 4 if isflt and spec["size"] == 4 else 8
         try:
             bits = int.from_bytes(struct.pack("<f", d), "little") if size == 4 else \
                 int.from_bytes(struct.pack("<d", d), "little")
@@ -818,7 +899,8 @@ class Impl:
 
             def tok(t, sbase=sbase):
                 if isinstance(t, str) and t.startswith("@S"):
-                    return "@S%d" % (sbase + int(t[2:]))
+                    i, _, off = t[2:].partition("+")
+                    return "@S%d%s" % (sbase + int(i), "+" + off if off else "")
                 return str(t)
             c["tok"] = tok
             for i in range(nobj):
@@ -864,14 +946,14 @@ class Impl:
         for _ in range(4):
             next(it)
         a = next(it).split()
-        f0, bad = int(a[1]), int(a[2])
+        f0, bad, brk, edge = int(a[1]), int(a[2]), int(a[3]), int(a[4])
         for c in cases:
             nobj = len(c["strings"]) + len(c["objs"])
             saddr = {}
             for i in range(nobj):
                 next(it)
                 saddr[i] = int(next(it).split()[1])
-            c["env"] = {"f0": f0, "bad": bad, "saddr": saddr}
+            c["env"] = {"f0": f0, "bad": bad, "brk": brk, "edge": edge, "saddr": saddr}
             sp = next(it)[6:].split(" | ")
             c["tflags"] = int(sp[0].split()[0])
             c["mspecs"] = []
@@ -968,6 +1050,16 @@ class Impl:
             p = subprocess.run(["timeout", "60", exe, "script", "--no-pager", "-S", sc, "-d", d], capture_output=True,
                                timeout=90)
             self.script_ok[lang] = self.parse_script(cases, lang, p)
+        # memory safety of the readers (thorough tier, every 4th stream): ASan + UBSan build of the current tree
+        self.asan_report = None
+        if self.ctx.thorough() and self.nrun % 6 == 0:
+            asan = build.get_build("asan", self.ctx.log)
+            for cmd in (["replay", "-f", "none"], ["dump"], ["script", "-S", os.path.join(self.ctx.scratch, "c09log.py")]):
+                q = subprocess.run(["timeout", "120", os.path.join(asan, "uftrace")] + cmd + ["--no-pager", "-d", d],
+                                   capture_output=True, timeout=150)
+                if sanitizer_report(q.stderr):
+                    self.asan_report = (cmd[0], q.stderr[:1500].decode("latin-1"))
+                    break
         return ok
 
     def parse_script(self, cases, lang, p):
@@ -1014,6 +1106,10 @@ class Impl:
             seg_a, seg_r = out[a:b], out[b:e if e >= 0 else len(out)]
             c["obs"]["dump_args"] = [(int(m.group(1)), m.group(2).decode(), int(m.group(3)), int(m.group(4), 16))
                                      for m in re.finditer(rb"\n  args\[(\d+)\] ([a-zA-Z])(\d+): 0x([0-9a-f]+)(?=\n)", seg_a)]
+            # strings as dump prints them (raw bytes up to the next item of the same record)
+            c["obs"]["dump_strs"] = {}
+            for m in re.finditer(rb"\n  args\[(\d+)\] (?:str|std::string): (.*?)(?=\n  args\[\d+\] |\n\d+\.\d{9} +\d+: \[|\Z)", seg_a, re.S):
+                c["obs"]["dump_strs"][int(m.group(1))] = m.group(2)
             c["obs"]["dump_ret"] = []
             for i, m in enumerate(re.finditer(rb"\n  retval ([^\n]*)", seg_r)):
                 m2 = re.match(rb"([a-zA-Z])(\d+): 0x([0-9a-f]+)$", m.group(1))
@@ -1062,6 +1158,13 @@ def resolve(c, t):
     if isinstance(t, str):
         if t == "@BAD":
             return c["env"]["bad"]
+        if t == "@BRK":
+            return c["env"]["brk"]
+        if t.startswith("@EDGE"):
+            return c["env"]["edge"] - (int(t[6:]) if t[5:6] == "-" else 0)
+        if t.startswith("@S") and "+" in t:
+            i, off = t[2:].split("+")
+            return c["env"]["saddr"][int(i)] + int(off)
         if t.startswith("@S"):
             return c["env"]["saddr"][int(t[2:])]
         if t.startswith("@F"):
@@ -1087,8 +1190,10 @@ def coq_aval(c, a):
         return "AStrAt i %s" % num(c["env"]["saddr"][a[1]])
     if a[0] == "null":
         return "ANull"
+    if a[0] == "at":
+        return "AStrAt i %s" % num(resolve(c, a[1]))
     if a[0] == "bad":
-        return "ABad %s" % num(c["env"]["bad"])
+        return "ABad %s" % num(resolve(c, a[1] if len(a) > 1 else "@BAD"))
     if a[0] == "sym":
         return "ASym %s %s" % (num(c["env"]["f0"] + 256 * (a[1] % 32)), nlist(b"fn%02d" % (a[1] % 32)))
     if a[0] == "flt":
@@ -1103,10 +1208,14 @@ def coq_case(c):
     objs = cobjs(c)
     stk = [resolve(c, w) for w in c["stack"]]
     stk = stk + [0] * (23 - len(stk)) + [SENTINEL_RET]
+    pages = ""
+    if any(isinstance(w, str) and w.startswith("@EDGE") for w in c["regs"] + c["stack"] + c["ret"][:2]):
+        pages = "(%s, %s)" % (num(c["env"]["edge"] - 4096), blist(b"E" * 4095))      # the readable page in front of @EDGE
     inp = ("{| regs := %s; xmm := [%s]; stk := %s; rets := %s; strs := [%s]; wrds := [%s] |}"
            % (nlist(resolve(c, w) for w in c["regs"]), num(c.get("xmm0", 0)), nlist(stk),
               nlist(resolve(c, w) for w in c["ret"][:2]),
-              "; ".join("(%s, %s)" % (num(c["env"]["saddr"][i]), blist(s)) for i, s in sorted(strs.items())),
+              "; ".join(["(%s, %s)" % (num(c["env"]["saddr"][i]), blist(s)) for i, s in sorted(strs.items())]
+                        + ([pages] if pages else [])),
               "; ".join("(%s, %s)" % (num(c["env"]["saddr"][i] + 8 * j), num(resolve(c, w)))
                         for i, ws in sorted(objs.items()) for j, w in enumerate(ws))))
     f0 = c["env"]["f0"]
@@ -1199,6 +1308,17 @@ def judge_dump(c):
             continue
         byidx = {g[0]: g for g in got}
         for i, (sp, a) in enumerate(zip(pspecs, actual)):
+            if what == "args" and FMTS[sp["fmt"]] in ("FStr", "FStdStr") and a[0] in ("str", "at", "null", "bad"):
+                want = (b"NULL" if a[0] == "null" else ("<%#x>" % resolve(c, a[1] if len(a) > 1 else "@BAD")).encode()
+                        if a[0] == "bad" else str_bytes(c, a))
+                if len(want) > ARG_STR_MAX:
+                    want = want[:ARG_STR_MAX - 3] + b"..."
+                gs = c["obs"].get("dump_strs", {}).get(i)
+                if b"\n  args[" in want or b"\n" in want:
+                    continue                      # the line format of dump cannot be split safely
+                if gs != want:
+                    return "args[%d] (string): dump shows %r, the string passed is %r" % (i, gs, want)
+                continue
             if a[0] not in ("int", "flt") or FMTS[sp["fmt"]] in ("FStr", "FStdStr", "FStruct", "FPtr", "FEnum"):
                 continue
             g = byidx.get(i)
@@ -1213,12 +1333,12 @@ def fits(c, pspecs, actual):
     n = 0
     strs = cstrings(c)
     for sp, a in zip(pspecs, actual):
-        if a[0] == "str":
-            n += ALIGN(min(len(strs[a[1]]), ARG_STR_MAX) + 2, 4)
+        if a[0] in ("str", "at"):
+            n += ALIGN(min(len(str_bytes(c, a)), ARG_STR_MAX) + 2, 4)
         elif a[0] == "null":
             n += 8
         elif a[0] == "bad":
-            n += ALIGN(len("<%#x>" % c["env"]["bad"]) + 2, 4)
+            n += ALIGN(len("<%#x>" % resolve(c, a[1] if len(a) > 1 else "@BAD")) + 2, 4)
         else:
             n += ALIGN(sp["size"], 4)
     return n <= MAX_SIZE
@@ -1226,16 +1346,27 @@ def fits(c, pspecs, actual):
 
 # ================================================================== end to end: compiled programs, --auto-args
 E2E_HEAD = """#include <complex.h>
+#include <stdlib.h>
+#include <string.h>
 struct big { long a, b, c; };
 struct pair { int x, y; };
+struct dd { double a, b; };
+enum color { RED, GREEN, BLUE = 5, MAUVE = 100001 };
+enum flags { FA = 1, FB = 2, FC = 4, FD = 0x100 };
 """
+E2E_ENUM = {"enum color": {"RED": 0, "GREEN": 1, "BLUE": 5, "MAUVE": 100001},
+            "enum flags": {"FA": 1, "FB": 2, "FC": 4, "FD": 0x100}}
+# calls of libc functions at the end of main: their specs come from the built-in auto-args table (utils/auto-args.h)
+E2E_LIBC_CALLS = '  sink += atoi("4217");\n  sink += strcmp(zz, "zebra");\n  sink += getenv("C09_NOT_SET") != 0;\n'
+E2E_LIBC_LINES = [b'  atoi("4217") = 4217;', b'  strcmp("zebra", "zebra") = 0;', b'  getenv("C09_NOT_SET") = "NULL";']
 # (C type, kind, bits, signed)
 E2E_TYPES = [("int", "int", 32, True), ("unsigned int", "int", 32, False), ("long", "int", 64, True),
              ("unsigned long", "int", 64, False), ("short", "int", 16, True), ("unsigned short", "int", 16, False),
              ("signed char", "int", 8, True), ("unsigned char", "int", 8, False), ("long long", "int", 64, True),
              ("char", "char", 8, True), ("const char *", "str", 64, False), ("double", "flt", 64, True),
              ("float", "flt", 32, True), ("long double", "flt", 80, True), ("struct big", "struct", 192, False),
-             ("struct pair", "struct", 64, False), ("int *", "nullptr", 64, False), ("void (*%s)(void)", "fnptr", 64, False)]
+             ("struct pair", "struct", 64, False), ("int *", "nullptr", 64, False), ("void (*%s)(void)", "fnptr", 64, False),
+             ("enum color", "enum", 32, False), ("enum flags", "enum", 32, False), ("struct dd", "structdd", 128, False)]
 
 
 def int_cands(v, bits):
@@ -1271,6 +1402,15 @@ class E2EGen:
             return lit, ["txt", int_cands(v, bits), ["ints", sorted(set(int(x, 0) if not x.startswith("0") or x == "0" or
                                                                        x.startswith("0x") else int(x, 8)
                                                                        for x in int_cands(v, bits)))]]
+        if kind == "enum":
+            defs = E2E_ENUM[ct]
+            if ct == "enum color" or r.random() < 0.3:
+                nm = r.choice(sorted(defs))
+                return nm, ["txt", [nm], ["ints", [defs[nm]]]]
+            names = r.sample(sorted(defs), r.randrange(2, 4))          # an OR of distinct flag bits
+            v = sum(defs[n] for n in names)
+            return "(enum flags)(%s)" % "|".join(names), ["txt", ["|".join(p) for p in itertools.permutations(names)],
+                                                          ["ints", [v]]]
         if kind == "char":
             ch = r.choice("xyzAZ09 _-+")
             return "'%s'" % ch, ["txt", ["'%s'" % ch], ["str", ch]]
@@ -1284,7 +1424,10 @@ class E2EGen:
             v = r.choice([0.0, 1.5, -2.25, 1024.125, -0.5, 3.25, 100000.0, r.randrange(-4000, 4000) / 8.0])
             sfx = {32: "f", 64: "", 80: "L"}[bits]
             fb = int.from_bytes(struct.pack("<f", v), "little") if bits == 32 else int.from_bytes(struct.pack("<d", v), "little")
-            return "%r%s" % (v, sfx), ["txt", ["%f" % v], ["flt", 4 if bits == 32 else 8, fb]]
+            return "%r%s" % (v, sfx), ["txt", ["%f" % v], ["flt", 4 if bits == 32 else 8, fb, bits, v]]
+        if kind == "structdd":
+            a, b = r.choice([1.5, -2.25, 1024.125, 0.1, 3.0]), r.choice([2.25, 1e10, -0.5, 7.0])
+            return "(struct dd){%r, %r}" % (a, b), ["structv", struct.pack("<dd", a, b).hex()]
         if kind == "struct":
             return ("(struct big){1, 2, 3}" if "big" in ct else "(struct pair){7, 8}"), ["struct"]
         if kind == "nullptr":
@@ -1294,7 +1437,8 @@ class E2EGen:
     def function(self, k, types=None):
         r = self.rng
         types = types or [r.choice(E2E_TYPES) for _ in range(r.randrange(1, 8))]
-        rett = r.choice([E2E_TYPES[0], E2E_TYPES[2], E2E_TYPES[10], E2E_TYPES[11], None, E2E_TYPES[1]])
+        rett = r.choice([E2E_TYPES[0], E2E_TYPES[2], E2E_TYPES[10], E2E_TYPES[11], None, E2E_TYPES[1], E2E_TYPES[12],
+                         E2E_TYPES[13], E2E_TYPES[18]])
         params, vals, acts = [], [], []
         for i, t in enumerate(types):
             ct = t[0]
@@ -1315,8 +1459,8 @@ class E2EGen:
 
 def e2e_program(funcs):
     return (E2E_HEAD + "volatile int sink;\n__attribute__((noinline)) void g0(void) { sink++; }\n"
-            + "".join(f["src"] for f in funcs) + "int main(void) {\n  g0();\n" + "".join(f["call"] for f in funcs)
-            + "  return 0;\n}\n")
+            + "".join(f["src"] for f in funcs) + "int main(void) {\n  char zz[8];\n  strcpy(zz, \"zebra\");\n  g0();\n"
+            + "".join(f["call"] for f in funcs) + E2E_LIBC_CALLS + "  return 0;\n}\n")
 
 
 def e2e_aval(a):
@@ -1339,7 +1483,9 @@ def e2e_saval(a, record_time):
             return "AScr [] [%s] []" % blist(k[1].encode())
         if k[0] == "flt":
             # libmcount cannot touch floating-point values: listed finding script-record-float
-            return ("AScr [] [%s] []" % blist(b"<float>")) if record_time else "AScr [] [] [(%d, %s)]" % (k[1], num(k[2]))
+            if record_time:
+                return "AScr [] [%s] []" % blist(b"<float>")
+            return "AScr [] [] [(10, 0)]" if k[3] == 80 else "AScr [] [] [(%d, %s)]" % (k[1], num(k[2]))
         return "AAnyInt"
     return e2e_aval(a)
 
@@ -1359,6 +1505,79 @@ def parse_e2e_script(out, funcs, specs_of):
         else:
             d["ret"] = None if k[3] == "-" else [script_token(t, pr[0] if pr else None) for t in k[4:5]]
     return res
+
+
+def x87_bits(v):
+    """the 80-bit extended encoding of the double v (exact)"""
+    import math
+    if v == 0:
+        return 0
+    m, e = math.frexp(abs(v))
+    return int(m * (1 << 64)) | (((e - 1 + 16383) | (0x8000 if v < 0 else 0)) << 64)
+
+
+def e2e_dump(ctx, impl, funcs, items, data, asan_dir=None):
+    """`uftrace dump` on the data of a traced program: the raw values must be the values passed (third reader)"""
+    out = []
+    objdir = asan_dir or impl.objdir
+    p = subprocess.run(["timeout", "120", os.path.join(objdir, "uftrace"), "dump", "--no-pager", "-d", data],
+                       capture_output=True, timeout=150)
+    if (p.returncode != 0 and not asan_dir) or sanitizer_report(p.stderr):
+        return [(items[0][0], "uftrace dump%s fails: rc=%d %s" % (" (ASan build)" if asan_dir else "", p.returncode,
+                                                              p.stderr[:600].decode("latin-1")))]
+    text = p.stdout
+    for f, pa, pr in items:
+        a = text.find(b"[entry] %s(" % f["name"].encode())
+        b = text.find(b"[exit ] %s(" % f["name"].encode(), a) if a >= 0 else -1
+        e = text.find(b"\n", text.find(b"[entry] ", b + 1)) if b >= 0 else -1
+        if a < 0 or b < 0:
+            out.append((f, "uftrace dump has no entry/exit record of %s" % f["name"]))
+            continue
+        for seg, truths, kind in ((text[a:b], f["actual"], "args"),
+                                  (text[b:text.find(b"[entry] ", b + 1) if text.find(b"[entry] ", b + 1) > 0 else len(text)],
+                                   [f["ractual"]] if f["ractual"] is not None else [], "retval")):
+            for i, t in enumerate(truths):
+                key = (b"args[%d] " % i) if kind == "args" else b"retval "
+                m = re.search(rb"\n  " + re.escape(key) + rb"([^\n]*)", seg)
+                line = m.group(1) if m else None
+                bad = None
+                if t[0] == "strv":
+                    want = t[1].encode()
+                    want = want if len(want) <= ARG_STR_MAX else want[:ARG_STR_MAX - 3] + b"..."
+                    if line != b"str: " + want:
+                        bad = want
+                elif t[0] == "null":
+                    if line != b"str: NULL":
+                        bad = b"NULL"
+                elif t[0] == "structv":
+                    m4 = re.search(rb"\n  " + re.escape(key) + rb"struct [^\n]*:((?:\n\t[0-9a-f ]+)+)", seg)
+                    got = bytes.fromhex(m4.group(1).decode().replace("\n", "").replace("\t", "").replace(" ", "")) if m4 else None
+                    if got != bytes.fromhex(t[1]):
+                        line, bad = got.hex() if got is not None else line, t[1]
+                elif t[0] == "txt" and len(t) > 2 and t[2][0] in ("ints", "flt", "str"):
+                    m2 = re.match(rb"[a-zA-Z](\d+): 0x([0-9a-f]+)$", line or b"")
+                    m3 = re.match(rb"enum \S+: .* \((-?\d+)\)$", line or b"")
+                    k = t[2]
+                    if re.match(rb"p: ", line or b""):
+                        if k[0] == "ints" and line != b"p: " + (b"0" if k[1] == [0] else b"?"):
+                            bad = k[1]
+                    elif m3 and k[0] == "ints":
+                        if int(m3.group(1)) not in k[1]:
+                            bad = k[1]
+                    elif not m2:
+                        bad = "a raw value"
+                    else:
+                        bits, val = int(m2.group(1)), int(m2.group(2), 16)
+                        if k[0] == "ints" and val not in [c % (1 << bits) for c in k[1]]:
+                            bad = k[1]
+                        elif k[0] == "str" and val != ord(k[1]):
+                            bad = k[1]
+                        elif k[0] == "flt" and val != (x87_bits(k[4]) if k[3] == 80 else k[2]):
+                            bad = hex(x87_bits(k[4]) if k[3] == 80 else k[2])
+                if bad is not None:
+                    out.append((f, "uftrace dump shows %s %r for %s[%d], the value passed is %r"
+                                % (kind, line, kind, i, bad)))
+    return out
 
 
 def e2e_scripts(ctx, impl, funcs, items, d, data, exe, tag):
@@ -1415,7 +1634,7 @@ def e2e_scripts(ctx, impl, funcs, items, d, data, exe, tag):
     return out
 
 
-def e2e_run(ctx, impl, funcs, tag, extra_opts=(), judge_ret=True, scripts=False):
+def e2e_run(ctx, impl, funcs, tag, extra_opts=(), judge_ret=True, scripts=False, nonleaf=False):
     """compile, record with --auto-args (+ extra -A/-R options), replay; returns list of (func, problem or None).
     judge_ret=False: the extra options put further return value specs in front, only the arguments and the
     completeness of the call sequence are judged"""
@@ -1442,22 +1661,34 @@ def e2e_run(ctx, impl, funcs, tag, extra_opts=(), judge_ret=True, scripts=False)
             specs[cur] = {"A": [], "R": []}
         elif line[:3] in ("A: ", "R: ") and cur:
             specs[cur][line[0]] = [x for x in line[3:].strip().lstrip("@").split(",") if x]
-    p = subprocess.run(["timeout", "60", uft, "replay", "--no-pager", "-f", "none", "--no-comment", "-d", data],
-                       capture_output=True, timeout=90)
+    p = subprocess.run(["timeout", "60", uft, "replay", "--no-pager", "-f", "none", "--no-comment"]
+                       + (["--no-event"] if nonleaf else []) + ["-d", data], capture_output=True, timeout=90)
     shown = {}
     order = []
-    for m in re.finditer(rb"(?m)^  (g\d+)(\(.*?\))( = .*)?;$", p.stdout):
-        shown[m.group(1).decode()] = (m.group(2), (m.group(3) + b";") if m.group(3) else b"")
-        order.append(m.group(1).decode())
+    if nonleaf:
+        # the functions carry event records (hidden by --no-event): "  gK(args) {\n  } = ret;"
+        for m in re.finditer(rb"(?m)^  (g\d+)(\(.*?\)) \{\n  \}( = .*;)?$", p.stdout):
+            shown[m.group(1).decode()] = (m.group(2), m.group(3) or b"")
+            order.append(m.group(1).decode())
+    else:
+        for m in re.finditer(rb"(?m)^  (g\d+)(\(.*?\))( = .*)?;$", p.stdout):
+            shown[m.group(1).decode()] = (m.group(2), (m.group(3) + b";") if m.group(3) else b"")
+            order.append(m.group(1).decode())
     items, out = [], []
     # every call of main, in order, and main's own exit: nothing behind a payload may be lost
-    want = ["g0"] + [f["name"] for f in funcs] if len(funcs) > 1 else None
+    want = ([] if nonleaf else ["g0"]) + [f["name"] for f in funcs] if len(funcs) > 1 else None
     if p.returncode != 0 or b"invalid rstack" in p.stderr or not re.search(rb"(?m)^\}", p.stdout) \
             or (want is not None and order != want):
         lost = next((f for f in funcs if f["name"] not in shown), funcs[-1])
         out.append((lost, "replay lost or garbled records behind a payload: calls shown %s, stderr %r"
                     % (order, p.stderr[-200:].decode("latin-1"))))
         funcs = [f for f in funcs if f is not lost]
+    elif want is not None:
+        # library calls whose specs come from the built-in auto-args table
+        for line in E2E_LIBC_LINES:
+            if not re.search(rb"(?m)^" + re.escape(line) + rb"$", p.stdout):
+                out.append((funcs[-1], "--auto-args on a library call: replay has no line %r (it shows %r)"
+                            % (line.decode(), [l for l in p.stdout.split(b"\n") if l.startswith(line[:6])])))
     for f in funcs:
         sp = specs.get(f["name"])
         if sp is None or f["name"] not in shown:
@@ -1489,7 +1720,95 @@ def e2e_run(ctx, impl, funcs, tag, extra_opts=(), judge_ret=True, scripts=False)
             out.append((f, ("replay shows %s%s" % f["shown"]) if i in bad else None))
         if scripts:
             out += e2e_scripts(ctx, impl, funcs, items, d, data, exe, tag)
+            out += e2e_dump(ctx, impl, funcs, items, data)
+            if ctx.thorough():
+                # memory safety of the readers on the same data (ASan + UBSan build of the current tree)
+                asan = build.get_build("asan", ctx.log)
+                out += e2e_dump(ctx, impl, funcs, items, data, asan_dir=asan)
+                for cmd in (["replay", "-f", "none"], ["script", "-S", os.path.join(d, "log.py")],
+                            ["script", "-S", os.path.join(d, "log.lua")]):
+                    q = subprocess.run(["timeout", "120", os.path.join(asan, "uftrace")] + cmd + ["--no-pager", "-d", data],
+                                       capture_output=True, timeout=150)
+                    if sanitizer_report(q.stderr):
+                        out.append((items[0][0], "ASan/UBSan report in `uftrace %s`: %s"
+                                    % (" ".join(cmd[:1]), q.stderr[:800].decode("latin-1"))))
     return out
+
+
+E2E_PTR_PROG = r'''
+#include <stdio.h>
+#include <string.h>
+#include <sys/mman.h>
+volatile int sink;
+__attribute__((noinline)) int p1(const char *s) { sink++; return 1; }
+__attribute__((noinline)) int p2(const char *s) { sink++; return 2; }
+__attribute__((noinline)) int p3(const char *s) { sink++; return 3; }
+__attribute__((noinline)) int p4(const char *s) { sink++; return 4; }
+__attribute__((noinline)) int p5(const char *s) { sink++; return 5; }
+__attribute__((noinline)) int p6(const char *s) { sink++; return 6; }
+__attribute__((noinline)) const char *p7(int x) { sink++; return (const char *)mark; }
+char *mark;
+int main(void) {
+  char *two = mmap(NULL, 8192, PROT_READ | PROT_WRITE, MAP_PRIVATE | MAP_ANONYMOUS, -1, 0);
+  memset(two, 'E', 4095);
+  two[4095] = 0;
+  mprotect(two + 4096, 4096, PROT_NONE);
+  mark = two + 4096;
+  printf("EDGE=%lx\n", (unsigned long)(two + 4096));
+  fflush(stdout);
+  p1(two);            /* first byte of the mapping */
+  p2(two + 4095);     /* its last byte: the NUL */
+  p3(two + 4096);     /* one past the end: PROT_NONE behind */
+  p4(two + 4092);
+  p5((const char *)0);
+  p6((const char *)16);  /* wild */
+  p7(7);              /* returns the one-past-the-end pointer */
+  puts("DONE");
+  return 0;
+}
+'''
+
+
+def e2e_pointers(ctx, impl):
+    """string pointers at the boundaries of a readable mapping, end to end: the traced program must run to its end
+    with its own output unchanged, and replay must show the strings / the raw address"""
+    d = os.path.join(ctx.scratch, "e2e-ptr")
+    shutil.rmtree(d, ignore_errors=True)
+    os.makedirs(d)
+    open(os.path.join(d, "p.c"), "w").write("char *mark;\n" + E2E_PTR_PROG.replace("char *mark;\n", "", 1))
+    exe = os.path.join(d, "p")
+    q = subprocess.run(["gcc", "-pg", "-g", "-O0", "-o", exe, os.path.join(d, "p.c")], capture_output=True, text=True, timeout=120)
+    if q.returncode != 0:
+        raise RuntimeError("pointer program does not compile: " + q.stderr[-800:])
+    plain = subprocess.run([exe], capture_output=True, timeout=30, cwd=d)
+    uft = os.path.join(impl.objdir, "uftrace")
+    for variant, opts in (("explicit", ["-A", "^p[1-6]$@arg1/s", "-R", "p7@retval/s"]), ("auto-args", ["-a"])):
+        data = os.path.join(d, "data-" + variant)
+        p = subprocess.run(["timeout", "60", uft, "record", "--no-pager", "--no-event", "--libmcount-path=" + impl.objdir]
+                           + opts + ["-d", data, exe], capture_output=True, timeout=90, cwd=d)
+        ctx.case(key=("e2e-pointers", variant), tags=["e2e:pointers:" + variant])
+        m = re.search(rb"EDGE=([0-9a-f]+)", p.stdout)
+        ok = p.returncode == 0 and m and b"DONE" in p.stdout and b"terminated by signal" not in p.stderr \
+            and re.sub(rb"EDGE=[0-9a-f]+", b"", p.stdout) == re.sub(rb"EDGE=[0-9a-f]+", b"", plain.stdout)
+        problem = None
+        if not ok:
+            problem = "the traced program does not run to its end with its own output: rc=%d stdout=%r stderr=%r" % (
+                p.returncode, p.stdout[-200:], p.stderr[-300:])
+        else:
+            edge = int(m.group(1), 16)
+            r = subprocess.run(["timeout", "60", uft, "replay", "--no-pager", "-f", "none", "--no-comment", "-F", "^p[1-7]$",
+                                "-d", data], capture_output=True, timeout=90)
+            want = [b'p1("' + b"E" * 95 + b'...")', b'p2("")', b'p3("<%#x>")' % edge, b'p4("EEE")', b'p5("NULL")',
+                    b'p6("<0x10>")', b'p7(7) = "<%#x>";' % edge]
+            got = [l.strip() for l in r.stdout.split(b"\n") if re.match(rb"\s*p[1-7]\(", l)]
+            got = [re.sub(rb"^(p[1-6]\(.*\))( = \d+)?;$", rb"\1", l) for l in got]
+            got = [re.sub(rb"^p7\(7?\)", b"p7(7)", l) for l in got]
+            if got != want:
+                problem = "replay shows %r, expected %r" % (got, want)
+        if problem:
+            ctx.violation("C09 violated end to end (string pointers at the boundaries of a readable mapping, %s): %s"
+                          % (variant, problem), {"mode": "e2e-pointers", "variant": variant, "program": E2E_PTR_PROG,
+                                                 "record_options": opts}, True)
 
 
 E2E_WITNESSES = [
@@ -1535,11 +1854,15 @@ def e2e(ctx, impl):
             funcs.append(g.function(len(funcs) + 1, types))
         # (a) --auto-args alone; (b) --auto-args plus explicit catch-all return value specs of both classes, so that
         # every function is matched by several -R options (an integer-class and a float-class value are recorded)
+        # (c) --auto-args plus an exit-time read trigger on every function: libc code runs inside the exit hook
+        # before the (floating-point) return value is captured
         both = ["-R", "^g[0-9]+$@retval/f", "-R", "^g[1-9][0-9]*$@retval/x"]
-        for variant, opts, judge_ret in (("auto-args", [], True), ("auto-args+explicit-retvals", both, False)):
+        rdtr = ["-T", "^g[1-9][0-9]*$@read=proc/statm"]
+        for variant, opts, judge_ret in (("auto-args", [], True), ("auto-args+explicit-retvals", both, False),
+                                         ("auto-args+read-trigger", rdtr, True)):
             nbad = 0
-            for f, problem in e2e_run(ctx, impl, funcs, "p%d%s" % (rnd, "x" if opts else ""), opts, judge_ret,
-                                      scripts=not opts):
+            for f, problem in e2e_run(ctx, impl, funcs, "p%d%s" % (rnd, "x" if opts is both else "r" if opts else ""),
+                                      opts, judge_ret, scripts=not opts, nonleaf=opts is rdtr):
                 if f is None:
                     ctx.broken("end-to-end run failed: " + problem)
                     continue
@@ -1661,6 +1984,14 @@ def run_cases_through(ctx, impl, cases, name):
                               {"mode": "resync", "case": public(bad), "batch": [public(c) for c in b],
                                "replay_rc": rc, "replay_output_tail": out[-1500:].decode("latin-1"),
                                "replay_stderr": err[-500:].decode("latin-1")}, True)
+        if getattr(impl, "asan_report", None):
+            ctx.extra["asan_reports"] = ctx.extra.get("asan_reports", 0) + 1
+            if ctx.extra["asan_reports"] <= 2:
+                ctx.violation("C09: `uftrace %s` (ASan/UBSan build) reports a memory error while reading the recorded "
+                              "arguments" % impl.asan_report[0],
+                              {"mode": "asan", "batch": [public(c) for c in b], "report": impl.asan_report[1]}, True)
+        if not impl.replay_ok:
+            pass
         elif not all(impl.script_ok.values()):
             lang, rc, out, err = impl.last_script
             bad = next((c for c in b if c["obs"].get(lang) is None), b[0])
@@ -1807,11 +2138,12 @@ def run(ctx):
             c["specs"] += ["arg2/s", "arg3/i16"]
             c["actual"] += [["str", 0], ["int", c["regs"][2]]]
             cases.append(c)
-    for _ in range(ctx.n(330, 6000)):
+    for _ in range(ctx.n(290, 4200)):
         cases.append(g.call())
     batches, res = run_cases_through(ctx, impl, cases, "cases")
     count_cases(ctx, [c for b in batches for c in b])
     verdict(ctx, batches, res)
+    e2e_pointers(ctx, impl)
     found = e2e(ctx, impl)
     defect_witnesses(ctx, impl, found)
 
